@@ -11,8 +11,9 @@ Inductive fitchk : Type :=
 | KHasMicrocode | KHasACM | KHasIBB.
 
 Inductive case : Type :=
-(* a FIT range/presence check on package state (fitPointer, fitHeaders) *)
-| CFit (k : fitchk) (fitptr : Z) (tbl : list fent) (r : verd)
+(* a FIT range/presence check on package state (fitPointer, fitHeaders); [mem]: the size
+   fields of the ACM headers in physical memory (address of the field -> value) *)
+| CFit (k : fitchk) (fitptr : Z) (tbl : list fent) (mem : physmem) (r : verd)
 | CHasPolicy (txtmode : Z) (tbl : list fent) (r : verd)
 | CPolicyTXT (rd : option Z) (tbl : list fent) (r : verd)
 (* FITVectorIsSet: pointer at 0xFFFFFFC0 (None: unreadable); fitPointer afterwards *)
@@ -30,7 +31,7 @@ Inductive case : Type :=
 | CAuxHash (blob : list Z) (r : verd)
 | CLcp1 (version hashalg ptype sinitmin polctrl maxsinit : Z) (hashzero : bool) (r : verd)
 | CLcp2 (preset version hashalg ptype hmask smask : Z) (r : verd)
-(* SINITACMcomplyTPMSpec: capabilities of the SINIT ACM, of the module parsed behind it *)
+(* SINITACMcomplyTPMSpec: capabilities of the SINIT ACM, of a module stored behind it *)
 | CSinitTPM (caps1 : Z) (caps2 : option Z) (tpm : Z) (present : bool) (r : verd)
 (* Boot Guard / ME *)
 | CSaneME (strict : bool) (v hfsts6 msr : Z) (r : verd)
@@ -42,14 +43,14 @@ Inductive case : Type :=
 (* single-register verdicts: selector and arguments *)
 | CBits (k : Z) (args : list Z) (r : verd).
 
-Definition fit_model (k : fitchk) (fitptr : Z) (tbl : list fent) : verd :=
+Definition fit_model (k : fitchk) (fitptr : Z) (tbl : list fent) (mem : physmem) : verd :=
   match k with
-  | KNoIBBOverlap => no_ibb_overlap dsz_real tbl
-  | KNoACMOverlap => no_acm_overlap dsz_real tbl
-  | KCoversRV => ibb_covers_rv dsz_real tbl
-  | KCoversFV => ibb_covers_fv dsz_real tbl
-  | KCoversFIT => ibb_covers_fit dsz_real fitptr tbl
-  | KACMBelow4G => acm_below_4g dsz_real tbl
+  | KNoIBBOverlap => no_ibb_overlap (dsz mem) tbl
+  | KNoACMOverlap => no_acm_overlap (dsz mem) tbl
+  | KCoversRV => ibb_covers_rv (dsz mem) tbl
+  | KCoversFV => ibb_covers_fv (dsz mem) tbl
+  | KCoversFIT => ibb_covers_fit (dsz mem) fitptr tbl
+  | KACMBelow4G => acm_below_4g (dsz mem) tbl
   | KHasMicrocode => has_type T_MICROCODE tbl
   | KHasACM => has_type T_SACM tbl
   | KHasIBB => has_type T_IBB tbl
@@ -72,7 +73,7 @@ Definition bits_model (k : Z) (a : list Z) : verd :=
 
 Definition check (c : case) : bool :=
   match c with
-  | CFit k p t r => verd_eqb r (fit_model k p t)
+  | CFit k p t m r => verd_eqb r (fit_model k p t m)
   | CHasPolicy m t r => verd_eqb r (has_bios_policy m t)
   | CPolicyTXT rd t r => verd_eqb r (policy_allows_txt rd t)
   | CFitVec p r => verd_eqb r (fit_vector_is_set p)
